@@ -371,6 +371,10 @@ def get_attr(self, base: Term, name: str, st: State, node=None) -> Term:
                     return t
                 if [x for x in ext if x != "object"]:
                     return mk("extmeth", base, name, ext[0])
+                if self.sym_bytes and name not in o.attrs and not name.startswith("__") and not o.cls.lookup("__getattr__"):
+                    # concrete-control scenarios: an object built in the scenario, attribute neither set nor defined by its classes
+                    self.emit("raise", node, st, exc="AttributeError", exc_term=mk("builtin", "AttributeError"), args=(), reraise=False, implicit=True, construct="%s.%s" % (o.cls.name, name))
+                    raise PathDead()
                 return mk("attr", base, name)
             if o.origin is not None:
                 return mk("attr", o.origin, name)
@@ -438,6 +442,10 @@ def get_attr(self, base: Term, name: str, st: State, node=None) -> Term:
                 return mk("extmeth", selft, name, c)
         return mk("extmeth", selft, name, "object")
     if op in ("const", "static"):
+        if base is NONE and self.sym_bytes and not name.startswith("__"):
+            # concrete-control scenarios: attribute access on None is a definite AttributeError
+            self.emit("raise", node, st, exc="AttributeError", exc_term=mk("builtin", "AttributeError"), args=(), reraise=False, implicit=True, construct="None.%s" % name)
+            raise PathDead()
         return mk("bmeth", base, name)
     if op == "elem":
         # element of a list whose members are known heap objects: push the attribute read through
@@ -598,6 +606,10 @@ def do_subscript(self, base: Term, idx: Optional[Term], sl, st: State, node) -> 
             try:
                 if i in o.kv:
                     return o.kv[i]
+                if self.sym_bytes:
+                    # exact dictionary, constant key that is not in it: a definite KeyError
+                    self.emit("raise", node, st, exc="KeyError", exc_term=mk("builtin", "KeyError"), args=(), reraise=False, implicit=True, construct="missing key")
+                    raise PathDead()
             except TypeError:
                 pass
     elif idx.op == "tuple" and all(is_const(x) for x in idx.args[0]) and o is not None and o.kind == "dict" and o.exact:
@@ -823,12 +835,13 @@ def call(self, fn: Term, args: List[Term], kwargs: Dict[str, Term], st: State, n
         c = self.prog.classes.get(fn.args[0])
         if c is not None:
             return self.instantiate(c, args, kwargs, st, node)
-    if op == "phi":
-        # call through a merged callable: try both under a choice frame
+    if op in ("phi", "or"):
+        # call through a merged callable (`f or g` selects one of its operands): try each under a choice frame
         results = []
         saved = st.ctx
         uid = fresh_uid()
-        for k, alt in enumerate(fn.args[1:]):
+        alts = fn.args[1:] if op == "phi" else (fn.args[0] if len(fn.args) == 1 and isinstance(fn.args[0], tuple) else fn.args)
+        for k, alt in enumerate(alts):
             st.ctx = saved + (("choice", uid, k, show(alt, 2)),)
             try:
                 results.append(self.call(alt, args, kwargs, st, node))
@@ -840,7 +853,7 @@ def call(self, fn: Term, args: List[Term], kwargs: Dict[str, Term], st: State, n
             raise PathDead()
         r = results[0]
         for x in results[1:]:
-            r = r if r is x else mk("phi", fn.args[0], r, x)
+            r = r if r is x else mk("phi", fn.args[0] if op == "phi" else mk("sym", "which", uid), r, x)
         return r
     return self.models.call_model(self, fn, args, kwargs, st, node)
 
